@@ -133,18 +133,15 @@ MUTANTS = [
      "            (self._best_agent, ), (self._worst_agent, ) = special_agents(\n                self._population, n_best=1, n_worst=1, task_type=task.minmax\n            )\n\n            # stop"),
     # ---- C13 / C14
     ("discrete_decode_off_by_one", ["C13"], M, "return self.choices[int(value)]", "return self.choices[int(value) - 1]"),
-    ("multi_validator_first_pair_only", ["C13"], M,
-     "        if np.any(np.array([ub <= lb for lb, ub in zip(self.lower_bounds, self.upper_bounds)])):\n            raise ValueError(\"Upper bound must be greater than lower bound\")\n        return self\n\n    def get(self) -> list[\"ContinuousVariable\"]:\n        return self._children\n\n    def randomize(self):\n        return [v.randomize() for v in self._children]\n\n    def get_bounds(self) -> tuple[tuple[float] | list[float], tuple[float] | list[float]]:\n        return self.lower_bounds, self.upper_bounds\n\n    def correct(self, value: list):\n        return [v.correct(value[idx]) for idx, v in enumerate(self._children)]\n\n    def decode(self, value: list) -> list:\n        return [v.decode(value[idx]) for idx, v in enumerate(self._children)]\n\n    def size(self) -> int:\n        return len(self.lower_bounds)\n\n    def has_children(self) -> bool:\n        return True\n\n\nclass DiscreteVariable",
-     "        if self.upper_bounds[0] <= self.lower_bounds[0]:\n            raise ValueError(\"Upper bound must be greater than lower bound\")\n        return self\n\n    def get(self) -> list[\"ContinuousVariable\"]:\n        return self._children\n\n    def randomize(self):\n        return [v.randomize() for v in self._children]\n\n    def get_bounds(self) -> tuple[tuple[float] | list[float], tuple[float] | list[float]]:\n        return self.lower_bounds, self.upper_bounds\n\n    def correct(self, value: list):\n        return [v.correct(value[idx]) for idx, v in enumerate(self._children)]\n\n    def decode(self, value: list) -> list:\n        return [v.decode(value[idx]) for idx, v in enumerate(self._children)]\n\n    def size(self) -> int:\n        return len(self.lower_bounds)\n\n    def has_children(self) -> bool:\n        return True\n\n\nclass DiscreteVariable"),
+    # (a ContinuousMultiVariable validator that checks only the first pair is an equivalent mutant: the children
+    #  ContinuousVariable constructors reject the other pairs)
     ("binary_accepts_zero", ["C13"], M, "        if v <= 0:\n            raise ValueError(f\"\\\"n_vars\\\"", "        if v < 0:\n            raise ValueError(f\"\\\"n_vars\\\""),
-    ("space_dimension_counts_variables", ["C14", "C01"], M,
+    ("space_dimension_counts_variables", ["C14"], M,
      'kwargs["space_dimension"] = sum([v.size() for v in variables])', 'kwargs["space_dimension"] = len(variables)'),
     ("transform_counter_not_advanced", ["C14"], M, "            counter += v.size()\n        return solution", "        return solution"),
     ("get_bounds_swapped", ["C14", "C06"], M, "return np.array(lb), np.array(ub)", "return np.array(ub), np.array(lb)"),
     # ---- C15
-    ("one_population_object_refreshed", ["C15"], A,
-     "            evolution.append(Population(agents=self._population, task_type=task.minmax))\n\n            (self._best_agent",
-     "            evolution.append(evolution[-1] if self._population is evolution[-1].agents else Population(agents=self._population, task_type=task.minmax))\n\n            (self._best_agent"),
+    # (history aliasing: see seeded/C15 - pydantic copies the list on validated construction, a one-line mutant cannot alias it)
     ("trend_idx_from_end", ["C15"], U,
      "return [sort_by_cost(result.evolution[i].agents, result.task_type)[idx].cost for i in iters]",
      "return [sort_by_cost(result.evolution[i].agents, result.task_type)[-idx - 1].cost for i in iters]"),
